@@ -113,76 +113,94 @@ conv_set!(aes192_from_enc_val, aes192_from_enc_ref, aes192_dec_from_enc, aes192_
 conv_set!(aes256_from_enc_val, aes256_from_enc_ref, aes256_dec_from_enc, aes256_clones, crate::Aes256, crate::Aes256Enc, crate::Aes256Dec, 32);
 
 // ------------------------------------------------------------------ C04: the 9-wide AES-NI batch path
-// n blocks carved out of a byte buffer at a symbolic offset 0..=15, guard bytes before and after; per-block reference
-// = the single-block call on the same instance.  n is a constant per harness (see generic.rs on symbolic counts).
+// Instance: arbitrary state built in place (arbitrary round keys in both arrays; no key expansion in the query), after a
+// first construction from a constant key has run CPU detection (CPUID reports AES-NI) and filled the process-wide cache.
+// n blocks, n a constant per harness; the block index under test i is SYMBOLIC: output block i of the multi-block call
+// equals the single-block call on input block i (one reference computation: the pairwise consistency constraints of the
+// uninterpreted round body grow with the square of the number of applications, so the reference is computed for block i
+// only, not for all n).  In-place variant: blocks carved out of a byte buffer at a symbolic offset 0..=15 with guard
+// bytes before and after.  b2b variant: separate input unchanged.
 macro_rules! ni_batch {
-    ($name:ident, $n:expr, $dec:expr) => {
-        ni_harness!($name, 16 + 16 * $n + 1, 400, |inp| {
+    ($name:ident, $ty:ty, $n:expr, $dec:expr, $b2b:expr) => {
+        ni_harness!($name, core::mem::size_of::<$ty>() + 16 * $n + 2, 700, |inp| {
             ni_model::set_cpu(true);
             const N: usize = $n;
-            let key: [u8; 16] = take(inp, 0);
-            let off = (inp[16 + 16 * N] & 15) as usize;
-            let c = crate::Aes128::new(&key.into());
-            // reference
-            let mut r = [[0u8; 16]; N];
-            let mut j = 0;
-            while j < N {
-                let x: [u8; 16] = take(inp, 16 + 16 * j);
-                let mut b: Block<crate::Aes128> = x.into();
-                if $dec { c.decrypt_block(&mut b) } else { c.encrypt_block(&mut b) };
-                r[j] = b.0;
-                j += 1;
-            }
-            // in-place batch inside a larger buffer at offset `off`, 0xC3 guards around
-            let mut buf = [0xC3u8; 16 * N + 32];
-            j = 0;
-            while j < 16 * N {
-                buf[off + j] = inp[16 + j];
-                j += 1;
-            }
-            {
-                let blocks: &mut [Block<crate::Aes128>] = unsafe { core::slice::from_raw_parts_mut(buf.as_mut_ptr().add(off) as *mut Block<crate::Aes128>, N) };
-                if $dec { c.decrypt_blocks(blocks) } else { c.encrypt_blocks(blocks) };
-            }
-            j = 0;
-            while j < 16 * N + 32 {
-                if j >= off && j < off + 16 * N {
-                    vcheck!(buf[j] == r[(j - off) / 16][(j - off) % 16]);
-                } else {
-                    vcheck!(buf[j] == 0xC3);
+            const S: usize = core::mem::size_of::<$ty>();
+            let _detect = <$ty>::new(&Default::default());
+            let mut a = core::mem::MaybeUninit::<$ty>::uninit();
+            generic::fill(&mut a, &inp[..S]);
+            let c = generic::as_ref(&a);
+            let i = inp[S + 16 * N] as usize;
+            vassume!(i < N);
+            let off = (inp[S + 16 * N + 1] & 15) as usize;
+            // reference: single-block call on block i
+            let xi: [u8; 16] = take(inp, S + 16 * i);
+            let mut rb: Block<$ty> = xi.into();
+            if $dec { c.decrypt_block(&mut rb) } else { c.encrypt_block(&mut rb) };
+            let r = rb.0;
+            let mut ok = true;
+            if !$b2b {
+                // in-place batch inside a larger buffer at offset `off`, 0xC3 guards around
+                let mut buf = [0xC3u8; 16 * N + 32];
+                let mut j = 0;
+                while j < 16 * N {
+                    buf[off + j] = inp[S + j];
+                    j += 1;
                 }
-                j += 1;
+                {
+                    let blocks: &mut [Block<$ty>] = unsafe { core::slice::from_raw_parts_mut(buf.as_mut_ptr().add(off) as *mut Block<$ty>, N) };
+                    if $dec { c.decrypt_blocks(blocks) } else { c.encrypt_blocks(blocks) };
+                }
+                j = 0;
+                while j < 16 * N + 32 {
+                    if j < off || j >= off + 16 * N {
+                        ok &= buf[j] == 0xC3;
+                    }
+                    j += 1;
+                }
+                j = 0;
+                while j < 16 {
+                    ok &= buf[off + 16 * i + j] == r[j];
+                    j += 1;
+                }
+            } else {
+                // b2b batch: separate input unchanged, output block i as per block, nothing else to write
+                let mut ins: [Block<$ty>; N] = [[0u8; 16].into(); N];
+                let mut outs: [Block<$ty>; N] = [[0xA5u8; 16].into(); N];
+                let mut j = 0;
+                while j < N {
+                    ins[j] = take::<16>(inp, S + 16 * j).into();
+                    j += 1;
+                }
+                let res = if $dec { c.decrypt_blocks_b2b(&ins, &mut outs).is_ok() } else { c.encrypt_blocks_b2b(&ins, &mut outs).is_ok() };
+                ok &= res;
+                j = 0;
+                while j < N {
+                    ok &= ins[j].0 == take::<16>(inp, S + 16 * j);
+                    j += 1;
+                }
+                ok &= outs[i].0 == r;
             }
-            // b2b batch: separate input unchanged, output as per block
-            let mut ins: [Block<crate::Aes128>; N] = [[0u8; 16].into(); N];
-            let mut outs: [Block<crate::Aes128>; N] = [[0xA5u8; 16].into(); N];
-            j = 0;
-            while j < N {
-                ins[j] = take::<16>(inp, 16 + 16 * j).into();
-                j += 1;
-            }
-            let ok = if $dec { c.decrypt_blocks_b2b(&ins, &mut outs).is_ok() } else { c.encrypt_blocks_b2b(&ins, &mut outs).is_ok() };
-            vcheck!(ok);
-            j = 0;
-            while j < N {
-                vcheck!(ins[j].0 == take::<16>(inp, 16 + 16 * j));
-                vcheck!(outs[j].0 == r[j]);
-                j += 1;
-            }
-            Some(true)
+            Some(ok)
         });
     };
 }
-//@ harness name=aes128_ni_batch10_enc prop=C04,C20 tier=quick bits=1416 stub=1 est=600 variants=aes:ni desc="Aes128 (AES-NI arm) encrypt_blocks / encrypt_blocks_b2b on 10 blocks (one full 9-wide batch + a tail of 1) at a symbolic buffer offset 0..15 equal ten single-block calls; guard bytes and the separate input unchanged; all keys and contents"
-ni_batch!(aes128_ni_batch10_enc, 10, false);
-//@ harness name=aes128_ni_batch10_dec prop=C04,C20 tier=quick bits=1416 stub=1 est=600 variants=aes:ni desc="Aes128 (AES-NI arm) decrypt_blocks / decrypt_blocks_b2b on 10 blocks (9-wide batch + tail) equal ten single-block calls; guards and input unchanged"
-ni_batch!(aes128_ni_batch10_dec, 10, true);
-//@ harness name=aes128_ni_batch9_enc prop=C04 tier=thorough bits=1288 stub=1 est=600 variants=aes:ni desc="as batch10, n = 9 (exactly the parallel width)"
-ni_batch!(aes128_ni_batch9_enc, 9, false);
-//@ harness name=aes128_ni_batch8_enc prop=C04 tier=thorough bits=1160 stub=1 est=600 variants=aes:ni desc="as batch10, n = 8 (fewer than the parallel width: tail path only)"
-ni_batch!(aes128_ni_batch8_enc, 8, false);
-//@ harness name=aes128_ni_batch19_dec prop=C04 tier=thorough bits=2568 stub=1 est=2000 variants=aes:ni desc="as batch10, n = 19 = 2W+1 (two full batches + tail), decrypt"
-ni_batch!(aes128_ni_batch19_dec, 19, true);
+//@ harness name=aes128_ni_batch10_enc prop=C04,C20 tier=quick bits=7072 stub=1 est=300 variants=aes:ni desc="Aes128 (AES-NI arm, arbitrary round keys) encrypt_blocks in place on 10 blocks (one full 9-wide batch + a tail of 1) at a symbolic buffer offset 0..15: output block i (i symbolic) equals the single-block call on block i; guard bytes unchanged; all states and contents"
+ni_batch!(aes128_ni_batch10_enc, crate::Aes128, 10, false, false);
+//@ harness name=aes128_ni_batch10_enc_b2b prop=C04,C20 tier=quick bits=7072 stub=1 est=300 variants=aes:ni desc="Aes128 (AES-NI arm) encrypt_blocks_b2b on 10 blocks: output block i (i symbolic) equals the single-block call; separate input unchanged"
+ni_batch!(aes128_ni_batch10_enc_b2b, crate::Aes128, 10, false, true);
+//@ harness name=aes128_ni_batch10_dec prop=C04,C20 tier=quick bits=7072 stub=1 est=300 variants=aes:ni desc="Aes128 (AES-NI arm) decrypt_blocks in place on 10 blocks (9-wide batch + tail), symbolic offset: output block i equals the single-block call; guards unchanged"
+ni_batch!(aes128_ni_batch10_dec, crate::Aes128, 10, true, false);
+//@ harness name=aes128_ni_batch10_dec_b2b prop=C04,C20 tier=quick bits=7072 stub=1 est=300 variants=aes:ni desc="Aes128 (AES-NI arm) decrypt_blocks_b2b on 10 blocks: output block i equals the single-block call; separate input unchanged"
+ni_batch!(aes128_ni_batch10_dec_b2b, crate::Aes128, 10, true, true);
+//@ harness name=aes128_ni_batch9_enc prop=C04 tier=thorough bits=6944 stub=1 est=300 variants=aes:ni desc="as batch10, n = 9 (exactly the parallel width), in place"
+ni_batch!(aes128_ni_batch9_enc, crate::Aes128, 9, false, false);
+//@ harness name=aes128_ni_batch8_enc_b2b prop=C04 tier=thorough bits=6816 stub=1 est=300 variants=aes:ni desc="as batch10, n = 8 (fewer than the parallel width: tail path only), b2b"
+ni_batch!(aes128_ni_batch8_enc_b2b, crate::Aes128, 8, false, true);
+//@ harness name=aes128_ni_batch19_dec_b2b prop=C04 tier=thorough bits=8224 stub=1 est=1500 mem=30 variants=aes:ni desc="as batch10, n = 19 = 2W+1 (two full batches + tail), decrypt, b2b"
+ni_batch!(aes128_ni_batch19_dec_b2b, crate::Aes128, 19, true, true);
+//@ harness name=aes256_ni_batch10_dec_b2b prop=C04 tier=thorough bits=9120 stub=1 est=600 mem=30 variants=aes:ni desc="Aes256 (15 round keys) decrypt_blocks_b2b on 10 blocks: output block i equals the single-block call; input unchanged"
+ni_batch!(aes256_ni_batch10_dec_b2b, crate::Aes256, 10, true, true);
 
 // ------------------------------------------------------------------ C15: history independence incl. first-use detection
 //@ harness name=aes128_history prop=C15 tier=quick bits=896 stub=1 est=900 variants=aes:ni desc="sequential history on the autodetect types (CPUID reports AES-NI): a=new(k1) [first use triggers detection and fills the process-wide cache]; b=new(k2); a.enc(x); b.dec(y); clone(a).dec(z); then a fresh c=new(k1): a.enc(w) == c.enc(w), and b.dec(y) again gives the same result; all keys/blocks; threads = 1"
